@@ -18,6 +18,7 @@ LEVEL = {
     "C03": ("Bounded model checking of the real build() over a sequentialising thread/channel shim with Kahn-network monitors: a rule is handled only after every producer finished successfully, with the hash of the right target of each producer; schedule independence by the stated theorem.", "3/C03, 3.1"),
     "C04": ("Bounded model checking: for every placement of failing rules / missing leaves the real build() runs exactly the rules none of whose producers failed, reports one error per failure, records nothing for failed rules; the real command-outcome mapping and target re-hash report the right error kind naming the first missing target.", "3/C04"),
     "C05": ("Bounded model checking of the real build(): every Kani panic/overflow/bounds check, no internal send/receive error, Kahn monitors (one send per edge on every path, receive-before-drop, no wait on a later thread) over every plan and failure placement within the bound.", "3/C05, 3.1"),
+    "C06": ("Bounded model checking with rely/guarantee interference: before every System call of one rule thread that looks at or changes a cache entry, the solver may let a peer back up or restore a byte-identical entry (2 steps per phase); the thread never fails because of it, accepts/recovers only the remembered content, and loses nothing.", "3.2, 3/C06"),
     "C07": ("Bounded model checking: for every pre-state within the bounds that satisfies I1/I3, every mutation issued by the real resolve/back-up/restore/clean code leaves each cache entry holding the content it is named after (asserted after each mutation, so also at every crash prefix).", "3/C07"),
     "C08": ("Bounded model checking: every rename issued by the real code has an absent or byte-identical destination, ruler never creates/chmods files itself, and every content present before a step is at a target or in the cache after each mutation, also when the command then runs or fails.", "3/C08"),
     "C09": ("Bounded model checking: every mutating System call of the real step functions names an in-scope target or a cache entry, out-of-scope files are bit-identical afterwards, leaves are only read; build() starts exactly one worker per plan entry and hands it exactly its own targets.", "3/C09"),
@@ -30,11 +31,12 @@ LEVEL = {
 }
 
 NA = {
-    "C06": "check not yet built in this revision: the rely/guarantee interference harness of DESIGN 3.2 (hooks exist in SymSystem) is not registered yet",
-    "C11": "check not yet built in this revision: crash-index harness (hooks exist in SymSystem) and torn state-file harness not registered yet",
-    "C12": "check not yet built in this revision (sorter harness pending; a genuine false-cycle defect is known, see DESIGN)",
-    "C14": "check not yet built in this revision (parser harness pending)",
-    "C16": "check not yet built in this revision (bincode round-trip / prefix harness pending)",
+    "C03": "not applicable within reach: a statement about the real build() (spawn loops, closure bodies, join loop); the protocol harness over the sequentialising thread/channel shim is written (kani/harness/build__proto.rs) but CBMC does not get through build(): plan 'one leaf -> one rule' still in symbolic execution after 25 min / 21 GB (DESIGN A.3)",
+    "C05": "not applicable within reach: same reason as C03 -- needs the real build()/clean() under the model checker, which exceeds CBMC's memory even for the smallest plan; Kani has no threads, the closures are not callable items (DESIGN A.3)",
+    "C11": "not claimed: only the start-up half (directory::init from any partial ruler directory) and 'cache content-addressed / nothing lost after every mutation' are decided (harness init_any_partial_directory, step monitors); the state-file half needs bincode under CBMC, which ran out of memory on a one-entry round trip (DESIGN A.3)",
+    "C12": "not applicable within reach: topological_sort* on 3 symbolic rules exceeds 14 GB in CBMC's symbolic execution in every variant tried (data-dependent moves of heap-holding frames); oracle and native replay exist (shared/sortcase.rs) and reproduce a known false-cycle defect, but no solver check produces it (DESIGN A.3, finding F3)",
+    "C14": "not applicable within reach: the parser is the same kind of heap-heavy String/BTreeMap code as the sorter, on which CBMC exhausts memory; no encoding within the resource caps (DESIGN A.3)",
+    "C16": "not applicable within reach: bincode/serde visitor machinery under CBMC runs out of memory (14 GB) on a one-entry RuleHistory round trip (DESIGN A.3)",
     "C19": "not applicable: the endpoints are closures inside a tokio/warp async runtime served over a socket; neither Kani (no async runtime, no sockets) nor a MIR translation of warp/hyper is within reach (DESIGN 3/C19)",
 }
 
@@ -42,7 +44,7 @@ NA = {
 def main():
     checks = []
     served = {"kani-step": [], "mir-smt": []}
-    for pid in sorted(registry.PROPERTIES):
+    for pid in sorted(registry.CLAIMED):
         e = registry.PROPERTIES[pid]
         text, ref = LEVEL[pid]
         eng = "kani-step" + ("+mir-smt" if e.get("mir") else "")
@@ -68,7 +70,7 @@ def main():
     na = []
     for l in open("/verif/properties.jsonl"):
         pid = json.loads(l)["id"]
-        if pid not in registry.PROPERTIES:
+        if pid not in registry.CLAIMED:
             na.append({"property_id": pid, "reason": NA.get(pid, "check not yet built in this revision (see DESIGN.md)")})
     m = {
         "version": 1,
